@@ -308,7 +308,8 @@ def strata(tier):
             ("same_key_two_sections", _case(["setfl", "DL_POLY_EAM", "excel_eam", "eam_adp", "lammps_eam_alloy"], False, False, True), 2),
             ("both_directions", _case(["setfl_fs", "DL_POLY_EAM_fs", "excel_eam_fs"], False, False, "directions"), 1),
             ("several_additions", _case(["LAMMPS", "GULP", "DL_POLY"], False, False, "additions"), 1)] + [
-            ("invalid:%s:%s" % (w, r), _case(None, w, route=r), 0.15) for w in INVALID for r in ("ConfigParser", "make_config_parser", "main")
+            ("invalid:%s:%s" % (w, r), _case(None, w, route=r), 0.3 if w.startswith(("empty_", "label_")) else 0.15)
+            for w in INVALID for r in ("ConfigParser", "make_config_parser", "main")
             if not (w.startswith("label_") and r == "ConfigParser")
             if not (w == "remove_twice" and r == "make_config_parser")]
 
